@@ -5,6 +5,7 @@
 package main
 
 import (
+	"encoding/json"
 	"fmt"
 	"math/rand/v2"
 	"runtime"
@@ -485,7 +486,7 @@ func runConc(h hist, st *stats, viol func(string, map[string]string, string)) in
 
 func main() {
 	vf.Main("C04", "exploration", func(r *vf.Run) {
-		r.Rule("PRNG histories of ~80 operations (add/remove/replace of 3-6 candidate paths on 6 prefixes; register/unregister/refresh of 3-6 clients with options best, ECMP, max-paths 1-4) against a real Loc-RIB; after EVERY operation each registered client's held set is compared per prefix with the first paths of LocRIB.Get(pfx) its option admits; RefreshClient must deliver exactly that list; an unregistered client must see no further callback. Concurrent rounds: the same operation mix split over 4 mutator goroutines and a registrar goroutine, compared once all returned. distinct_nontrivial = histories in which a best-path change, an ECMP growth and an ECMP shrink were all observed")
+		r.Rule("PRNG histories of ~80 operations (add/remove/replace of 3-6 candidate paths on 6 prefixes; register/unregister/refresh of 3-6 clients with options best, ECMP, max-paths 1-4) against a real Loc-RIB; after EVERY operation each registered client's held set is compared per prefix with the first paths of LocRIB.Get(pfx) its option admits; RefreshClient must deliver exactly that list; an unregistered client must see no further callback. Concurrent rounds: the same operation mix split over 4 mutator goroutines and a registrar goroutine, compared once all returned. distinct_nontrivial = histories in which a best-path change, an ECMP growth and an ECMP shrink were all observed"+risRule)
 		r.Assume("held paths are compared as a set per prefix (duplicate deliveries are counted, not judged)", "expected selection is read from the Loc-RIB itself (C02/C03 judge the selection)")
 		mk := func(h hist) func(string, map[string]string, string) {
 			return func(clause string, f map[string]string, detail string) {
@@ -494,6 +495,17 @@ func main() {
 		}
 		r.NonDeterministic("panic")
 		if raw, ok := r.Replaying(); ok {
+			var k struct {
+				Kind string `json:"kind"`
+			}
+			if json.Unmarshal(raw, &k) == nil && k.Kind == risKind {
+				var c risCase
+				vf.Decode(raw, &c)
+				runRIS(c, func(clause string, f map[string]string, detail string) {
+					r.Violate(vf.Violation{Clause: clause, Features: f, Detail: detail, Case: c})
+				})
+				return
+			}
 			var h hist
 			vf.Decode(raw, &h)
 			st := &stats{callbacks: map[string]int{}}
@@ -570,5 +582,6 @@ func main() {
 		}
 		r.Count("callbacks", total)
 		r.Require("callbacks", 10000)
+		risPhase(r)
 	})
 }
